@@ -250,7 +250,7 @@ def register2(w):
                             ("spartan.py", "SpartanProtocol", ["S.shape_spartan(self.request)"])):
         w.contract(P + "%s::%s.handle" % (mod, cls), selfclass=[cls], globals=GROOT,
                    requires=HREQ + extra, modifies=HMOD + ["self.rfile.pos"], raises={"OSError": True}, on_raise=ONLYW,
-                   use_lemmas=[("ascii-digit-field", {"req": "self.request", "f": "self.request.strip().split(' ')[2]"})] if cls == "SpartanProtocol" else [],
+                   use_lemmas=[("ascii-digit-field", {"req": "self.request", "mid": "self.request.strip()", "f": "self.request.strip().split(' ')[2]"})] if cls == "SpartanProtocol" else [],
                    props=hprops, **FAULT)
         w.contract(P + "%s::%s.adjust_mimetype" % (mod, cls), selfclass=[cls], params={"mimetype": "opt[str]"}, modifies=[], raises={}, returns="str",
                    ensures=["result == ('text/plain' if mimetype is None else ('text/gemini' if mimetype == 'application/gopher-menu' else mimetype))",
@@ -260,8 +260,8 @@ def register2(w):
                modifies=["self.wfile.written"], raises={"OSError": True}, on_raise=ONLYW,
                ensures=["self.wfile.written.startswith(old(self.wfile.written))"], props=hprops, **FAULT)
     # ---- the connection handler ------------------------------------------------------------------------------------------
-    w.lemma("ascii-digit-field", ["req:str", "f:str"],
-            hyp=["req.isascii()", "f in req", "f.isdigit()"], goal=["ascii_digits(f)"], props=["C03", "C20", "C01", "C04"],
+    w.lemma("ascii-digit-field", ["req:str", "mid:str", "f:str"],
+            hyp=["req.isascii()", "mid in req", "f in mid", "f.isdigit()"], goal=["ascii_digits(f)"], props=["C03", "C20", "C01", "C04", "C05", "C06"],
             note="a field of an ASCII request line that passes str.isdigit() consists of ASCII digits, so int() of it is exact and cannot raise")
     w.contract("iface::AnyProtocol.handle", modifies=[], raises={"OSError": True}, assumed=True,
                note="interface: what every protocol's handle() guarantees (BaseGopherProtocol/GopherPlus/HTTP/Gemini/Spartan .handle.raises-only-declared): only OSError escapes",
